@@ -462,21 +462,25 @@ def gen_entry(rng, day0, ndays):
             start, end = list(ANY), list(ANY)
         return {'kind': 'range', 'start': start, 'end': end}
     last = calendar.monthrange(d.year, d.month)[1]
-    wk = rng.choice([255, (d.day - 1) // 7 + 1, 6 if d.day > last - 7 else 7, rng.randint(1, 9)])
+    # the codes counted from the END of the month (6..9) depend on the month's length: pick the one that contains d, or a neighbour
+    from_end = 6 + (last - d.day) // 7
+    wk = rng.choice([255, (d.day - 1) // 7 + 1, min(from_end, 9), min(from_end, 9), min(max(6, from_end + rng.choice([-1, 1])), 9), rng.randint(1, 9)])
     m = rng.choice([255, d.month, 13 if d.month % 2 else 14, rng.choice([13, 14])])
-    return {'kind': 'weeknday', 'wnd': [m, wk, rng.choice([255, d.isoweekday(), rng.randint(1, 7)])]}
+    return {'kind': 'weeknday', 'wnd': [m, wk, rng.choice([255, 255, d.isoweekday(), rng.randint(1, 7)])]}
 
 
 def gen_desc(seed, idx):
     rng = rng_for(seed, 'C20', idx)
-    year = rng.randint(1990, 2099)
+    # (a running clock before 1970 is not a realistic deployment: Time.now() mis-computes hundredths for negative epoch seconds)
+    year = rng.randint(1990, 2099) if rng.random() < 0.6 else rng.randint(1970, 2154)
     month = rng.randint(1, 12)
     # bias toward month ends, leap days, year ends
     day = rng.choice([1, 15, 26, 27, 28, calendar.monthrange(year, month)[1]])
     day = min(day, calendar.monthrange(year, month)[1])
-    if rng.random() < 0.1:
-        year = rng.choice([1996, 2000, 2024, 2096])
-        month, day = 2, 27
+    if rng.random() < 0.2:
+        # leap days, and the century years that are NOT leap years
+        year = rng.choice([1972, 1996, 2000, 2024, 2096, 2100, 2100, 2100, 2104])
+        month, day = 2, rng.choice([1, 7, 14, 21, 27])
     start_dt = datetime.datetime(year, month, day, rng.randint(0, 23), rng.randint(0, 59), rng.randint(0, 59))
     ndays = rng.randint(3, 40) if rng.random() < 0.3 else rng.randint(3, 8)
     day0 = start_dt.date()
@@ -507,7 +511,10 @@ def gen_desc(seed, idx):
             period = {'kind': 'calref'}
         else:
             period = gen_entry(rng, day0, ndays)
-        exceptions.append({'period': period, 'priority': prios[k], 'tv': gen_tv(rng, rng.randint(0, 4), vals)})
+        tvs = gen_tv(rng, rng.randint(0, 4), vals)
+        if rng.random() < 0.5:
+            tvs = [[[0, 0, 0, 0], rng.choice(vals)]] + [x for x in tvs if x[0] != [0, 0, 0, 0]]
+        exceptions.append({'period': period, 'priority': prios[k], 'tv': tvs})
     if weekly is None and not exceptions:
         weekly = [gen_tv(rng, rng.randint(0, 4), vals) for _ in range(7)]
     cfg = {'real': real, 'default': 9, 'effective': eff, 'weekly': weekly, 'exceptions': exceptions, 'calendar': calendar_entries,
@@ -621,7 +628,7 @@ def evidence(tier, seed, total):
             'rule': 'Each run: a LocalScheduleObject (Unsigned or Real values) inside an application with a LocalDeviceObject whose clock is the virtual clock, optional CalendarObject '
                     '(calendar-reference periods) and target object; seeded configuration (effective period open-ended / entered / left / both during the run; 0-4 weekly entries per day; '
                     '0-4 exceptions with distinct priorities, date / date-range / week-n-day / calendar-reference periods incl. odd/even month, last/odd/even day, week-of-month and open '
-                    'ranges, 0-4 ascending time-values each incl. Null) and a seeded start instant in 1990-2099 biased to month ends, leap days and year ends; virtual time runs 3-40 days with '
+                    'ranges, 0-4 ascending time-values each incl. Null) and a seeded start instant in 1970-2154 (60% in 1990-2099) biased to month ends, leap days, the non-leap century February of 2100 and year ends; virtual time runs 3-40 days with '
                     'the interpreter armed and re-armed by the real scheduler. Sampled at +-0.75 s around every configured time-value and every midnight of every day, at noon of every '
                     'day and every minute (+0.5 s) of two sampled days; at each sample the present value, eval()\'s value and its reported next transition are compared with an independent '
                     'interpreter. 25% of runs stall the loop (30 s - 25 h), 20% rewrite the weekly or exception schedule mid-run. Distinct = distinct (start, configuration, faults) tuples; '
